@@ -95,8 +95,8 @@ ExecAllowed(s, r) ==
     [] c = "lookup"    -> RunStored(s, r.h)
     [] c = "mismatch"  -> {<<>>}
     [] c = "malformed" -> {<<>>}                   \* no hash was supplied
-    [] c = "version"   -> IF r.q = "" THEN RunStored(s, r.h)
-                          ELSE IF r.h = H(r.q) THEN RunOwn(r.q) ELSE {<<>>}
+    [] c = "version"   -> {<<>>}                   \* unsupported version: nothing runs, with a text or hash-only,
+                                                  \* whether or not the hash is registered
     [] OTHER           -> {<<>>}
 
 \* Clause 2: "... or fails with PersistedQueryNotFound".  A registered document that does not
@@ -109,14 +109,16 @@ MissOK(s, r, o) ==
 \* Clause 3: "a request whose query does not match its hash or has an unsupported version changes
 \* nothing" -- and the registry only ever maps a hash to the parse of a text with that hash:
 \* every store must be (H(t), t) for a t registered by a valid registration (this request included).
+\* A mismatching, wrong-version or malformed request stores nothing at all.
 SetsOK(reg2, o) == \A i \in 1..Len(o.sets) : o.sets[i].d \in reg2 /\ o.sets[i].k = H(o.sets[i].d)
+StoresNothing(r, o) == Classify(r) \in {"mismatch", "version", "malformed"} => o.sets = <<>>
 
 MonStep(s, r, o) ==
   IF s.bad # "" THEN s
   ELSE LET reg2 == IF Registers(r) THEN s.mayReg \cup {r.q} ELSE s.mayReg IN
        IF o.exec \notin ExecAllowed(s, r) THEN [s EXCEPT !.bad = "executed"]
        ELSE IF ~MissOK(s, r, o) THEN [s EXCEPT !.bad = "notfound"]
-       ELSE IF ~SetsOK(reg2, o) THEN [s EXCEPT !.bad = "changed"]
+       ELSE IF ~SetsOK(reg2, o) \/ ~StoresNothing(r, o) THEN [s EXCEPT !.bad = "changed"]
        ELSE [s EXCEPT !.mayReg = reg2]
 
 -----------------------------------------------------------------------------
@@ -137,10 +139,12 @@ RunDoc(t, sets, gets) == IF t \in Good THEN Obs(<<t>>, "none", sets, gets) ELSE 
 \*   "KeyBySupplied"  ... and the document is stored under the supplied hash
 \*   "NoVersionCheck" the version is ignored
 \*   "StoreUnchecked" the document is stored before the hash comparison fails
+\*   "VersionOnRegisterOnly" the version is checked only when a query text is present (hash-only requests skip it)
 EffClass(r) ==
   LET c == Classify(r) IN
   IF c = "version" /\ "NoVersionCheck" \in Dev
     THEN (IF r.q = "" THEN "lookup" ELSE IF r.h = H(r.q) THEN "register" ELSE "mismatch")
+  ELSE IF c = "version" /\ "VersionOnRegisterOnly" \in Dev /\ r.q = "" THEN "lookup"
   ELSE c
 
 \* Result of handling request r with registry reg: [o |-> observation, reg |-> new registry]
